@@ -40,6 +40,8 @@ func New(config ...Config) fiber.Handler {
 		allowAllOrigins = true
 	}
 	for _, origin := range cfg.AllowOrigins {
+		// blanks around an entry (a list split at commas) do not belong to it
+		origin = utils.Trim(origin, ' ')
 		if origin == "*" {
 			allowAllOrigins = true
 			break
